@@ -281,15 +281,6 @@ def run(ctx, R, tier):
         return isinstance(atom, ast.Compare) and len(atom.ops) == 1 and unparse(atom.left) == "self.job" and isinstance(atom.comparators[0], ast.Constant) \
             and atom.comparators[0].value is None and ((isinstance(atom.ops[0], ast.Is) and pol is False) or (isinstance(atom.ops[0], ast.IsNot) and pol is True))
     ok = bool(brk) and bool(jobcall) and all(wcfg.guarded(n, lambda e: edge_has_fact(e, job_not_none)) for n in jobcall)
-    waits = [n for c in walk_no_nested(wr.node) if isinstance(c, ast.Call) and unparse(c.func) == "self.job_available.wait" for n in ctx.node_of(wr, c)]
-    clears = [n for c in walk_no_nested(wr.node) if isinstance(c, ast.Call) and unparse(c.func) == "self.job_available.clear" for n in ctx.node_of(wr, c)]
-    reads = [n for n in wcfg.nodes if n.kind in ("test", "stmt") and any(unparse(x) == "self.job" and isinstance(x.ctx, ast.Load) for e_ in stmt_exprs(n) for x in ast.walk(e_) if isinstance(x, ast.Attribute))]
-    ok_ev = bool(waits) and bool(clears) and bool(reads) and all(any(wcfg.dominates(w, c_) for w in waits) for c_ in clears) and \
-        all(any(wcfg.dominates(c_, r) for c_ in clears) for r in reads) and \
-        all(wcfg.all_paths_pass([r], lambda n: n in waits, edge_ok=no_exc, targets=[r]) for r in reads[:1])
-    R.check(ok_ev, "C18-R4", "Worker.run|event-waited-and-cleared", "each round of the worker loop waits for the event and clears it before it reads the job slot", wr.loc(),
-            "the worker reads its job slot without a fresh wait()/clear() of the event: after its first job it sees a set event with an empty slot, takes that as the stop "
-            "signal and exits while the pool still lists it as idle")
     R.check(ok, "C18-R4", "Worker.run|none-ends-thread", "a None job ends the worker loop and is never called", wr.loc(),
             "the worker does not leave its loop on a None job (close() could never stop it) or calls None")
     ccfg = ctx.cfg(close)
